@@ -4,29 +4,39 @@
 
    where the formula is any condition of Model/C01Expr.v over g's own attributes in which the leaves [ESub (40 + k)] stand for the
    k-th subquery condition - exists(m for m in g.members if c) / g.members, v in (m.a for m in g.members if c), v in g.members.a -
-   and the integer attributes with column id 40 + k for the k-th count(m for m in g.members if c).  `not exists(...)`,
+   and the leaves [ECol (40 + k) t nullable] for the k-th scalar subquery: count(m for m in g.members if c), and sum / min / max /
+   count(<item> for m in g.members if c) over a scalar expression <item> of m and g (sum: int, not nullable, 0 for no members;
+   min / max: the item's type, None for no non-None value).  The selected expression may mention the scalar subqueries too.  `not exists(...)`,
    `v not in (...)`, `not (v in (...))` are the formula [ENot (ESub _)]: the translator writes NOT EXISTS / NOT IN, which the
    correspondence harness reads as NOT (EXISTS ..) / NOT (x IN ..) - identities of SQL's three-valued logic.
    The translation of the formula is the one of Model/C01Translate.v ([ESub i] is a BoolExprMonad whose SQL is the subquery
    condition, column i); this file adds the list of subqueries with their SQL shape (as in Model/C01Coll.v, IN always over
    `... AND m.a IS NOT NULL` for an optional a), their SQL values and their Python values.  Definitions only. *)
 Require Import PonyV.Base.PyBase PonyV.Model.C01Expr PonyV.Model.C01Sql PonyV.Model.C01Translate PonyV.Model.C01Eqb
-               PonyV.Model.C01Query PonyV.Model.C01Join PonyV.Model.C01Coll.
+               PonyV.Model.C01Query PonyV.Model.C01Join PonyV.Model.C01Coll PonyV.Model.C01Aggr.
 
 Definition sub_base : nat := 40.
 
 Inductive subq : Type :=
 | SQExists (c : option expr)
 | SQIn (v : expr) (a : attr) (s : setform)
-| SQCount (c : option expr).
+| SQCount (c : option expr)
+| SQAgg (f : afn) (item : expr) (c : option expr).   (* sum | min | max | count (<item> for m in g.members if c) *)
 
 Inductive xsub : Type :=
 | XSExists (s : sub)                    (* ['EXISTS', from, where]                                   *)
 | XSIn (v item : qx) (s : sub)          (* ['IN', v, ['SELECT', ['ALL', item], from, where]]          *)
-| XSCount (s : sub).                    (* ['SELECT', ['AGGREGATES', ['COUNT', True, m.id]], from, where] *)
+| XSCount (s : sub)                     (* ['SELECT', ['AGGREGATES', ['COUNT', True, m.id]], from, where] *)
+| XSAgg (f : afn) (distinct : bool) (item : qx) (s : sub).   (* ['SELECT', ['AGGREGATES', [f, distinct, item]], from, where] *)
 
 Section Translate.
 Variable d : dname.
+
+(* known bad, outside the model: an item that mentions no attribute of m (`sum(g.number for m in g.members)`: SQL attributes an
+   aggregate whose argument has outer references only to the OUTER query - findings collection-aggregate-of-outer-only-item), and the
+   sum of a boolean item (decoded by the bool converter - finding sum-of-booleans-over-collection-is-returned-as-bool) *)
+Definition item_ok (f : afn) (t : vty) (item : expr) : bool :=
+  existsb (fun i => (i <? 10)%nat) (attr_ids item) && negb (match f, t with FSum, TBool => true | _, _ => false end).
 
 Definition tr_subq (s : subq) : option xsub :=
   match s with
@@ -43,6 +53,12 @@ Definition tr_subq (s : subq) : option xsub :=
       | _, _ => None
       end
   | SQCount c => option_map (fun cs => XSCount (sub_join, cs)) (tr_conds d c)
+  | SQAgg f item c =>
+      match f, ty_of item, tr_project d item, tr_conds d c with
+      | FAvg, _, _, _ => None                      (* a float: outside the value domain *)
+      | _, Some (TV t), Some q, Some cs => if aggr_ty_ok f t && item_ok f t item then Some (XSAgg f (match f with FCount => true | _ => false end) q (sub_join, cs)) else None
+      | _, _, _, _ => None
+      end
   end.
 
 Fixpoint tr_subqs (l : list subq) : option (list xsub) :=
@@ -57,6 +73,7 @@ Definition xsub_eqb (a b : xsub) : bool :=
   | XSExists s, XSExists s' => sub_eqb s s'
   | XSIn v i s, XSIn v' i' s' => qx_eqb v v' && qx_eqb i i' && sub_eqb s s'
   | XSCount s, XSCount s' => sub_eqb s s'
+  | XSAgg f b q s, XSAgg f' b' q' s' => afn_eqb f f' && Bool.eqb b b' && qx_eqb q q' && sub_eqb s s'
   | _, _ => false
   end.
 Fixpoint xsubs_eqb (a b : list xsub) : bool :=
@@ -76,6 +93,7 @@ Definition xval (g : row) (x : xsub) : qv :=
   | XSIn v item s =>
       qin d false (qeval d (encenv d (genv params g)) v) (map (fun m => qeval d (encenv d (menv params g m)) item) (sub_rows d params db g s))
   | XSCount s => IntV (Z.of_nat (count_distinct (map (fun m => enc d (m 0%nat)) (sub_rows d params db g s))))
+  | XSAgg f distinct item s => qaggr_vals f distinct (map (fun m => qeval d (encenv d (menv params g m)) item) (sub_rows d params db g s))
   end.
 
 (* the row of g as the outer conditions see it: g's columns, and column 40 + k = the value of the k-th subquery *)
@@ -96,6 +114,12 @@ Definition pyval (g : row) (s : subq) : pyv :=
       let c := match s with SGen c => c | SAttr => None end in
       py_of_tv (in_coll false (ref_eval (genv params g) v) (map (fun m => m (a_id a)) (filter (cond_holds params c g) (members db g))))
   | SQCount c => PInt (Z.of_nat (length (filter (cond_holds params c g) (members db g))))
+  | SQAgg f item c =>
+      match py_aggr_vals f (match f with FCount => true | _ => false end)
+                         (map (fun m => ref_eval (menv params g m) item) (filter (cond_holds params c g) (members db g))) with
+      | AVal v => v
+      | AFrac _ _ => PNone
+      end
   end.
 
 Definition fenv (subs : list subq) (g : row) : env :=
